@@ -798,6 +798,17 @@ ENTRIES += [
     M("S9-gym-adapter-step-key-not-stored", ["C13", "C01", "C12"], ["C13.7", "C01.8", "C12.7"], (GY, "        self.key, step_key = jr.split(self.key)\n", "        _, step_key = jr.split(self.key)\n")),
 ]
 
+WUT = "lerax/wrapper/utils.py"
+ENTRIES += [
+    # ---------------------------------------------------------------- defect 27 (infinite bounds in rescale_box) and the rules prompted by the tenth seeding round
+    M("D27-rescale-infinite-guard-removed", ["C13", "C02"], ["C13.5", "C02.5"], (WUT, "    assert jnp.all((min == box.low)[jnp.isinf(min) | jnp.isinf(box.low)])\n", "")),
+    V("D27-v-rescale-infinite-guard-where-form", ["C13", "C02"], (WUT, "    assert jnp.all((max == box.high)[jnp.isinf(max) | jnp.isinf(box.high)])\n", "    assert jnp.all(jnp.where(jnp.isinf(max) | jnp.isinf(box.high), max == box.high, True))\n")),
+    M("S10-gae-gamma-pinned-float32", "C03", "C03.10", (RB, "        gamma = jnp.asarray(gamma)\n", "        gamma = jnp.asarray(gamma, dtype=jnp.float32)\n")),
+    M("S10-ppo-single-batch-shortcut", "C09", "C09.4", (PPO, "        def batch_scan(", "        if indices.shape[0] == 1:\n            return self.train_batch(policy, opt_state, flat_buffer)\n\n        def batch_scan(")),
+    V("S10-v-categorical-mask-inverted-select", ["C16", "C15"], ("lerax/distribution/categorical.py", "        masked_logits = jnp.where(mask, self.logits, -jnp.inf)", "        masked_logits = jnp.where(~jnp.asarray(mask), -jnp.inf, self.logits)")),
+    M("S10-offpolicy-reward-after-reset", ["C19", "C05"], ["C19.3", "C05"], (OFP, "        next_env_state = lax.cond(\n            done, lambda: env.initial(key=env_reset_key), lambda: next_env_state\n        )", "        next_env_state = lax.cond(\n            done, lambda: env.initial(key=env_reset_key), lambda: next_env_state\n        )\n        reward = env.reward(state.env_state, clipped_action, next_env_state, key=reward_key)")),
+]
+
 ENTRIES += [
     # ---------------------------------------------------------------- later additions
     M("C15-sac-bounds-swapped", "C15", "C15.3", (PS, "                high=self.action_space.high,\n                low=self.action_space.low,\n            )\n        else:", "                high=self.action_space.low,\n                low=self.action_space.high,\n            )\n        else:")),
